@@ -71,6 +71,9 @@ class Externals:
                 return imp
             c = source.module_const(mod, name)
             if c is not None:
+                if isinstance(c, ast.Call) and isinstance(c.func, ast.Name) and c.func.id == 'object' and not c.args:
+                    # a module-level sentinel: one distinguished object, distinct from every value off the wire
+                    return S(atom(smt.Marker('sentinel:%s.%s' % (mod, name), kind=smt.K_OTHER)))
                 for c2, v in eng.ev(c, ctx):
                     return v
             if source.module_func(mod, name) is not None:
@@ -556,10 +559,16 @@ def _len(eng, ctx, args, kwargs):
 @builtin('isinstance')
 def _isinstance(eng, ctx, args, kwargs):
     x, t = args.items()
+
+    def tname(v):
+        n = v.name
+        if isinstance(v, Fn) and n in KIND_OF_TYPE:
+            return 'type:' + n
+        return n
     if isinstance(t, PySeq):
-        names = [i.name for i in t.items()]
+        names = [tname(i) for i in t.items()]
     else:
-        names = [t.name]
+        names = [tname(t)]
     res = []
     for n in names:
         res.append(_isinst(eng, ctx, x, n))
@@ -829,6 +838,8 @@ def _snapshot(eng, ctx, base):
         return eng.load(ctx, base)
     if isinstance(base, HRef) and ctx.heap[base.id].kind == 'map' and isinstance(ctx.heap[base.id].data, SV):
         return ctx.heap[base.id].data
+    if isinstance(base, HRef) and ctx.heap[base.id].kind == 'map' and isinstance(ctx.heap[base.id].data, dict) and not ctx.heap[base.id].data:
+        return SV.empty(MapT(Leaf('V')))      # an empty dict literal
     return None
 
 
@@ -976,6 +987,8 @@ def m_remove(ext, eng, ctx, base, args, kwargs):
 
 def m_update(ext, eng, ctx, base, args, kwargs):
     (x,) = args.items()
+    if isinstance(base, HRef) and ctx.heap[base.id].kind == 'map' and isinstance(ctx.heap[base.id].data, dict) and not ctx.heap[base.id].data:
+        ctx.heap[base.id].data = SV.empty(MapT(Leaf('V')))
     if isinstance(base, HRef) and ctx.heap[base.id].kind == 'map' and isinstance(ctx.heap[base.id].data, SV):
         sv = ctx.heap[base.id].data
         other = _snapshot(eng, ctx, x)
